@@ -31,6 +31,10 @@ def gen(tier, seed, index):
             'nt-without-rules', 'nullary', 'ext-also-attached-twice', 'plain', 'start-arity']
     forced = [pool[(index // 5) % len(pool)]]
     grid = (index // 65) % 2 == 0
+    if cls == 'unitcycle' and (index // 5) % 2 == 1:
+        # zero-weight cycles inside the factor tables that tie with the best acyclic derivation
+        spec = G.gen_zero_cycle_spec(rng)
+        return spec, dict(cls=cls, forced=['zero-weight-cycle-in-factor'], grid=True)
     if forced == ['plain'] and cls == 'nonrec':
         spec = G.gen_broadcast_spec(rng, wdomain='log')
         return spec, dict(cls=cls, forced=['stride0-nonterminals'], grid=False)
@@ -223,7 +227,7 @@ def run_case(tier, seed, index, spec=None, meta=None):
     if spec is None:
         spec, meta = gen(tier, seed, index)
     res = check_spec(spec, meta, tier)
-    feats = sorted(G.features_of(spec)) + [f for f in meta['forced'] if f in ('all-ext-rule', 'stride0-nonterminals')]
+    feats = sorted(G.features_of(spec)) + [f for f in meta['forced'] if f in ('all-ext-rule', 'stride0-nonterminals', 'zero-weight-cycle-in-factor')]
     res.update(cls=meta['cls'], features=feats, key=G.spec_key(spec), sample=dict(spec=G.describe(spec), meta=meta))
     for v in res['violations']:
         v['spec'] = spec
@@ -247,7 +251,7 @@ def finalize(tot, tier, seed):
     for c in CLASSES:
         if tot['classes'].get(c, 0) == 0:
             inc.append(f'class {c} not run')
-    for f in ('all-ext-rule', 'edgeless-internal', 'edgeless-ext', 'size1-domain', 'start-arity'):
+    for f in ('zero-weight-cycle-in-factor', 'all-ext-rule', 'edgeless-internal', 'edgeless-ext', 'size1-domain', 'start-arity'):
         if tot['features'].get(f, 0) == 0:
             inc.append(f'feature {f} never generated')
     return {}, inc
